@@ -30,6 +30,14 @@ Definition ios_verdict (x : script * list icmd) : list nat :=
   end%nat.
 Definition ios_verdicts (l : list (script * list icmd)) : list nat := flat_map ios_verdict l.
 
+(* the ACL after the implementation's commands, as (action, body, log) triples, for the second compare *)
+Definition ios_final (x : script * list icmd) : list (nat * (nat * nat)) :=
+  match iexec_all (reseq (listA (fst x))) (snd x) with
+  | Some r => map (fun e => (i_act (snd e), (i_body (snd e), i_log (snd e)))) r
+  | None => []
+  end.
+Definition ios_finals (l : list (script * list icmd)) := map ios_final l.
+
 (* ---- stepwise safety on the numbering core (C14) ---- *)
 Definition sem := list (nat * list nat).   (* body -> packets matched; action is in the entry *)
 Fixpoint verdict (sm : sem) (l : list ientry) (p : nat) : bool :=
